@@ -448,7 +448,7 @@ func TestMonitorLatest(t *testing.T) {
 	})
 }
 
-const ruleCadence = "real Cluster with a recording monitor: ping interval 400-800 ms, informer TTL 1-2 s, PublishMetric failing for a generated set of non-consecutive informer attempts; observed for 3.5 s; oracle: every metric of a name is published no later than the previous successfully published one expires, and ping TTL = 2 x interval; an apparent violation must reproduce in 3 consecutive runs of the same configuration; non-trivial = at least 3 publications per name observed; distinct by configuration"
+const ruleCadence = "real Cluster with a recording monitor: ping interval 400-800 ms, informer TTL 1-2 s, PublishMetric failing for 0-2 generated runs of 1-3 consecutive informer attempts; observed for 3.5 s; oracle: with at most one failed attempt in between, the next publication of a name comes no later than the previous successfully published one expires; two consecutive attempts are never further apart than half the metric's lifetime plus 400 ms; at the end of the observation the last attempt is no older than that (the loop is alive); ping TTL = 2 x interval; an apparent violation must reproduce in 3 consecutive runs of the same configuration; non-trivial = at least 3 publications per name observed; distinct by configuration"
 
 func TestCadence(t *testing.T) {
 	leg := ev.L("cadence", ruleCadence)
@@ -456,9 +456,16 @@ func TestCadence(t *testing.T) {
 		pingMs := rapid.IntRange(400, 800).Draw(t, "pingMs")
 		ttlMs := rapid.IntRange(1000, 2000).Draw(t, "ttlMs")
 		failAt := map[int]bool{}
+		// 0-2 runs of 1-3 consecutive failing attempts
 		nf := rapid.IntRange(0, 2).Draw(t, "nfail")
+		pos := 2
 		for i := 0; i < nf; i++ {
-			failAt[2+3*i+rapid.IntRange(0, 1).Draw(t, "failpos")] = true
+			pos += rapid.IntRange(0, 1).Draw(t, "failpos")
+			for l := rapid.IntRange(1, 3).Draw(t, "runlen"); l > 0; l-- {
+				failAt[pos] = true
+				pos++
+			}
+			pos++
 		}
 		var lastMsg string
 		ok := false
@@ -495,6 +502,7 @@ func runCadence(pingMs, ttlMs int, failAt map[int]bool) (string, int) {
 	}})
 	time.Sleep(3500 * time.Millisecond)
 	pubs, times, errs := f.Mon.TakePublishedFull()
+	end := time.Now()
 	f.Close()
 	type rec struct {
 		at     time.Time
@@ -508,6 +516,7 @@ func runCadence(pingMs, ttlMs int, failAt map[int]bool) (string, int) {
 	minPubs := 1 << 30
 	for name, rs := range by {
 		okPubs := 0
+		failsSinceOk := 0
 		var prev *rec
 		for i := range rs {
 			r := rs[i]
@@ -518,16 +527,37 @@ func runCadence(pingMs, ttlMs int, failAt map[int]bool) (string, int) {
 					return fmt.Sprintf("ping metric has TTL %v, want 2 x interval = %v", ttl, want), 0
 				}
 			}
-			if prev != nil && r.at.After(prev.expire) {
-				return fmt.Sprintf("metric %q published at +%v, after the previous one expired at +%v", name, r.at.Sub(rs[0].at), prev.expire.Sub(rs[0].at)), 0
+			// with at most one failed attempt in between, the next attempt
+			// comes before the previous metric expires (a longer run of
+			// publish errors necessarily outlasts the metric)
+			if prev != nil && failsSinceOk <= 1 && r.at.After(prev.expire) {
+				return fmt.Sprintf("metric %q published at +%v, after the previous one expired at +%v (%d failed attempts in between)", name, r.at.Sub(rs[0].at), prev.expire.Sub(rs[0].at), failsSinceOk), 0
+			}
+			// attempts never pause for longer than the republish period
+			if i > 0 {
+				life := rs[i-1].expire.Sub(rs[i-1].at)
+				if gap := r.at.Sub(rs[i-1].at); gap > life/2+400*time.Millisecond {
+					return fmt.Sprintf("metric %q: %v between two publish attempts, the metric's lifetime is %v", name, gap.Round(time.Millisecond), life), 0
+				}
 			}
 			if r.ok {
 				okPubs++
 				prev = &rs[i]
+				failsSinceOk = 0
+			} else {
+				failsSinceOk++
 			}
 		}
 		if okPubs < minPubs {
 			minPubs = okPubs
+		}
+		// the loop must still be alive at the end of the observation: the
+		// last attempt (successful or not) is at most one republish period
+		// (half the metric's lifetime) plus slack old
+		last := rs[len(rs)-1]
+		life := last.expire.Sub(last.at)
+		if idle := end.Sub(last.at); idle > life/2+400*time.Millisecond {
+			return fmt.Sprintf("metric %q: last publish attempt %v before the end of the observation, its lifetime is %v: the peer stopped republishing", name, idle.Round(time.Millisecond), life), 0
 		}
 	}
 	if len(by) < 2 {
